@@ -319,7 +319,8 @@ def check_concat(a, b, opts, res):
 
 
 KEEP_DEFAULT = '\\${}^_'
-PARTIAL_ALPHA = ['\\', '$', '{', '}', '^', '_', 'a', 'b', 'é', '∞', ' ', '\n', '%', '&',
+PARTIAL_ALPHA = ['e\u0301', 'A\u0308',      # decomposed: the input is normalised before anything else
+                 '\\', '$', '{', '}', '^', '_', 'a', 'b', 'é', '∞', ' ', '\n', '%', '&',
                  '\\begin{x}', '\\end{x}', '\\alpha', "\\'", '\\begin', '~', '#']
 
 
